@@ -15,7 +15,14 @@ def obligations(tier):
                       funcs=(MD + "Metadata.from_chart_lines",), bounds="2 token lines (+ optional garbage line): first field fixed, second symbolic over all 24; symbolic values"))
     obs.append(Ob("C10.fields.no_resolution", "CH", "harness.h_metadata", "metadata_fields", 900, {"VF_FIRST": 12, "VF_NLINES": 2},
                   funcs=(MD + "Metadata.from_chart_lines",), bounds="absent Resolution -> MissingRequiredField unless the second line supplies it"))
+    for strf in ([8, 12] if tier == "quick" else [6, 7, 8, 9, 12, 13, 23]):
+        obs.append(Ob(f"C10.real_lines.field{strf}", "CH", "harness.h_metadata", "metadata_real_lines", 900, {"VF_STRF": strf, "VF_NMAX": 2},
+                      funcs=(MD + "Metadata.from_chart_lines", MD + "_field_parsing_specs[*].regex_prog"),
+                      bounds="real recognisers on quoted values assembled from <=2 tokens of {quote, letter, blank, '=', 'Offset = 7', non-ASCII, 'Resolution = 9'}, both line orders, padding"))
     if tier == "thorough":
+        for k0 in range(7):
+            obs.append(Ob(f"C10.real_lines.3tokens.first{k0}", "CH", "harness.h_metadata", "metadata_real_lines", 1500, {"VF_STRF": 8, "VF_NMAX": 3, "VF_K0": k0},
+                          funcs=(MD + "Metadata.from_chart_lines",), bounds="values of <=3 tokens, first token fixed per partition"))
         for f in (0, 2, 8):
             obs.append(Ob(f"C10.fields3.first{f}", "CH", "harness.h_metadata", "metadata_fields", 1800, {"VF_FIRST": f, "VF_NLINES": 3},
                           funcs=(MD + "Metadata.from_chart_lines",), bounds="3 token lines"))
